@@ -157,13 +157,13 @@ def report(mod, pid, tier, seed, tot, wall):
             print('  violation %s: %s' % (v['key'], str(v.get('what'))[:600]))
             print('VIOLATION property=%s replay=%s' % (pid, path))
         return 1
+    for m in tot['inconclusive'][:6]:
+        print('  inconclusive: %s' % m[:1200])
     missing = [c for c in getattr(mod, 'REQUIRED', []) if tot['counters'].get(c, 0) <= 0]
     if missing:
         print('INCONCLUSIVE property=%s deciding clauses never evaluated: %s' % (pid, missing))
         return 2
     if tot['inconclusive']:
-        for m in tot['inconclusive'][:10]:
-            print('  inconclusive: %s' % m[:400])
         allowed = getattr(mod, 'INCONCLUSIVE_BUDGET', 0.02)
         if len(tot['inconclusive']) > max(0, int(allowed * max(1, tot['evaluations']))):
             print('INCONCLUSIVE property=%s %d runs inconclusive' % (pid, len(tot['inconclusive'])))
